@@ -84,6 +84,12 @@ def variant_items():
     for pre in ("-", "o", "o P1", "x"):
         out.append([pre + " ", "  body starts on the second line"])
         out.append([pre + " 2024-02-03", "  * only a date on the first line"])
+    # create dates whose ISO week-based year is not their calendar year
+    for d in ("2024-12-30", "2021-01-01", "2027-01-03"):
+        out.append(["- " + d + " dated at a turn of the year"])
+        out.append(["o P1 " + d + " dated at a turn of the year"])
+    # a create date after 2099: the ZID can only carry two of its year digits
+    out.append(["- 2150-03-04 dated in the next century"])
     return out
 
 
@@ -186,6 +192,16 @@ def _judge_state(zdir, day, original: dict, prev: dict | None, step_no: int, had
             collapsed = str(d.get("index", "")) == re.sub(r" ?\n\s*", " ", str(d.get("files", "")), count=1)
             if was_bare and files_first == str(d.get("zid")) and collapsed:
                 suffix = ":first-line-holds-only-the-prefix"
+        if d["what"] == "create":
+            # narrow class: the item was written with a create date after 2099; its ZID carries the
+            # last two year digits only, so the rewritten file reads as 20YY (same month and day)
+            try:
+                di, df = dt.date.fromisoformat(str(d.get("index"))), dt.date.fromisoformat(str(d.get("files")))
+                if di.year >= 2100 and df == dt.date(2000 + di.year % 100, di.month, di.day) \
+                        and str(d.get("zid", ""))[:6] == "%02d%02d%02d" % (di.year % 100, di.month, di.day):
+                    suffix = ":year-beyond-2099-does-not-fit-a-zid"
+            except ValueError:
+                pass
         return ("index-differs-from-files:" + d["what"] + suffix, d)
     # (iii) each file = original + ZIDs on first lines of formerly ZID-less items
     for rel, orig in original.items():
